@@ -24,6 +24,8 @@ lazy_static! {
     pub static ref WALLET_DIR_PATH: String = String::from("./data/wallet");
     pub static ref CHECKPOINT_DIR_PATH: String = String::from("./data/checkpoints/");
 }
+const TEMP_FILE_SUFFIX: &str = ".tmp";
+
 pub fn configure_storage() -> String {
     if cfg!(test) {
         String::from("./data/test/blocks/")
@@ -142,11 +144,16 @@ impl InterfaceIO for RustIOHandler {
                 .await
                 .expect("creating directory structure failed");
         }
-        let mut file = File::create(filename).await?;
+        // the value is written to a temporary file which is then moved into place, so that a
+        // crash in the middle of the write never leaves a torn file under the final name
+        let temp_filename = format!("{}{}", filename, TEMP_FILE_SUFFIX);
+        let mut file = File::create(temp_filename.as_str()).await?;
 
         file.write_all(value).await?;
+        file.flush().await?;
+        drop(file);
 
-        // TODO : write the file to a temp file and move to avoid file corruptions
+        tokio::fs::rename(temp_filename.as_str(), filename).await?;
 
         Ok(())
     }
@@ -224,10 +231,9 @@ impl InterfaceIO for RustIOHandler {
             .unwrap()
             .map(|r| r.unwrap())
             .filter(|r| {
-                r.file_name()
-                    .into_string()
-                    .unwrap()
-                    .contains(BLOCK_FILE_EXTENSION)
+                let name = r.file_name().into_string().unwrap();
+                // a temporary file left behind by an interrupted write is not a block
+                name.contains(BLOCK_FILE_EXTENSION) && !name.ends_with(TEMP_FILE_SUFFIX)
             })
             .collect();
         paths.sort_by(|a, b| {
